@@ -59,6 +59,9 @@ def close_checks(sc, tr, extra):
             if x["kind"] == "write" and x["frame"] and x["frame"]["op"] == 8:
                 closed_flag_from = i
                 # an application close() call's own marker follows its write
+            elif x["kind"] == "call" and x["action"] and x["action"][0] == "close" and x["result"] == 0:
+                # an accepted close() that wrote nothing (no connection yet, or the write failed): the websocket is closing all the same
+                closed_flag_from = i
             continue
         if x["kind"] == "call" and x["action"] and x["action"][0] in ("text", "binary", "ping", "pong"):
             if i - 1 == closed_flag_from:
@@ -66,7 +69,7 @@ def close_checks(sc, tr, extra):
             if x["result"] not in (3, 4, 5, 6):
                 big = x["action"][0] in ("ping", "pong") and len(x["action"][1]) > 125
                 if not (big and x["result"] == 2):
-                    out.append("send_%s after the Close frame did not raise a WebSocketError (result %s)" % (x["action"][0], x["result"]))
+                    out.append("send_%s after the Close frame / after an accepted close() did not raise a WebSocketError (result %s)" % (x["action"][0], x["result"]))
     # ---- client-initiated: server's Close reply -> Closed, graceful Disconnected, socket closed
     if client_closed_first is not None:
         reply = sc.get("_server_close_after_client")
